@@ -29,6 +29,7 @@ def generate(rng, tier, shard, nshards):
         if gi % 4 == 1:
             g = fam.permuted(g, rng)
         G, _ = cfg_proj(g)
+        yield gops.event("mapbool", {"sr": srn, "G": G, "L": 3, "names": names}, site="map_values(Boolean)", feat=feat)
         ctxs = [[str(x) for x in c] for c in fam.strings(g.V, L)]
         ctxs += [[gops.EOS_NAME], [sorted(g.V)[0], gops.EOS_NAME], [gops.EOS_NAME, sorted(g.V)[0]]]
         for alg in ("earley", "cky"):
@@ -44,6 +45,12 @@ def generate(rng, tier, shard, nshards):
 def selftests(events, rng):
     out = []
     cands = [e for e in events if "exc" not in e and e["op"] == "mask"]
+    from tfm_common import visible_string
+    for e in [e for e in events if "exc" not in e and e["op"] == "mapbool" and visible_string(e["in"], e["sigma"], e["L"])][:3]:
+        c = copy.deepcopy(e)
+        c["expect"] = "reject"
+        c["out"]["rules"] = []
+        out.append(c)
     rng.shuffle(cands)
     for e in cands[:12]:
         c = copy.deepcopy(e)
